@@ -229,6 +229,25 @@ func (g *c04gen) lineProtocol() hReq {
 	return hReq{Desc: "line protocol odd fields", Class: "line protocol: odd names/values", Path: path, Hdr: map[string]string{"x-arc-database": "c04db"}, Body: []byte(sb.String()), Rids: rids, M: m}
 }
 
+// several measurements in one request, one of which cannot be converted (mixed
+// types in one column): the request is answered with an error; none of its
+// measurements may be stored. Which measurements arc writes before it reaches the
+// failing one depends on Go map iteration order, hence four good ones.
+func (g *c04gen) multiMeasurementLP() hReq {
+	r := g.r
+	n := 6
+	rids := g.nextRids(n)
+	var sb strings.Builder
+	ms := []string{"c04a", "c04b", "c04c", "c04d"}
+	for i := 0; i < 4; i++ {
+		fmt.Fprintf(&sb, "%s,host=h rid=%di,w=1i %d\n", ms[i], rids[i], 1_700_000_000+r.IntN(7200))
+	}
+	fmt.Fprintf(&sb, "c04bad,host=h rid=%di,w=1i %d\n", rids[4], 1_700_000_000)
+	fmt.Fprintf(&sb, "c04bad,host=h rid=%di,w=\"s\" %d\n", rids[5], 1_700_000_001)
+	return hReq{Desc: "line protocol, 5 measurements, one with a mixed-type column", Class: "multi-measurement line protocol with one unconvertible measurement",
+		Path: "/write?db=c04db&precision=s", Body: []byte(sb.String()), Rids: rids, M: "c04a"}
+}
+
 func (g *c04gen) csvImport() hReq {
 	r := g.r
 	m := c04Measurements[r.IntN(2)]
@@ -348,6 +367,9 @@ func (g *c04gen) randomBytes() hReq {
 
 func (g *c04gen) next() hReq {
 	var q hReq
+	if g.r.IntN(25) == 0 {
+		return g.multiMeasurementLP()
+	}
 	switch g.r.IntN(10) {
 	case 0, 1, 2, 3:
 		q = g.msgpackColumnar()
@@ -489,7 +511,13 @@ func runC04Sequence(c *vlib.Ctx, a *Arc, g *c04gen, seqLen int, seqID int) (aliv
 			rows := st[rid]
 			if !ok {
 				if len(rows) > 0 {
-					c.Violation("rejected request stored rows: "+s.q.Class, map[string]any{"status": s.status, "desc": s.q.Desc, "rid": rid, "stored": rows[0].String(), "body": fmt.Sprintf("%x", s.q.Body[:min(len(s.q.Body), 400)])})
+					cls := s.q.Class
+					if strings.Contains(cls, "line protocol") && s.status >= 500 {
+						// every mutation family of a line-protocol body can end up as a request with
+						// several measurements of which one fails conversion (500): one root cause
+						cls = "line-protocol request answered 5xx was partially applied (measurements written before the failing one stay stored)"
+					}
+					c.Violation("rejected request stored rows: "+cls, map[string]any{"status": s.status, "desc": s.q.Desc, "rid": rid, "stored": rows[0].String(), "body": fmt.Sprintf("%x", s.q.Body[:min(len(s.q.Body), 400)])})
 				}
 				continue
 			}
